@@ -1361,3 +1361,130 @@ Proof.
   unfold printed_binding at 1. cbn [fst snd print_value].
   destruct (all_some (map string_binding s)) as [l'|]; [|discriminate]. now rewrite (IH l' eq_refl).
 Qed.
+
+(** * Iterators: every call sequence *)
+Lemma kv_eqb_refl x : kv_eqb x x = true.
+Proof. now apply kv_eqb_eq. Qed.
+Lemma kvs_eqb_refl l : kvs_eqb l l = true.
+Proof. now apply kvs_eqb_eq. Qed.
+
+Lemma iter_run_ok ops : forall it p d,
+  (d = true -> it_idx it = (Z.of_nat p - 1)%Z) ->
+  iter_ok (it_set it) p d ops (iter_run it ops) = true.
+Proof.
+  induction ops as [|op ops IH]; intros it p d Hd; [reflexivity|].
+  destruct op; cbn [iter_run iter_step iter_ok it_set it_idx].
+  - (* Next *)
+    apply andb_true_iff. split.
+    + destruct d; [|reflexivity]. rewrite (Hd eq_refl). apply Bool.eqb_true_iff.
+      destruct (Nat.leb_spec (S p) (length (it_set it))); [apply Z.ltb_lt | apply Z.ltb_ge]; lia.
+    + apply (IH {| it_set := it_set it; it_idx := (it_idx it + 1)%Z |} (S p) d).
+      intro E. cbn [it_idx]. rewrite (Hd E). lia.
+  - (* Attribute *)
+    apply andb_true_iff. split; [|now apply IH].
+    destruct (d && Nat.leb 1 p && Nat.leb p (length (it_set it))) eqn:E; [|reflexivity].
+    apply andb_true_iff in E as [E E3]. apply andb_true_iff in E as [E1 E2]. apply Nat.leb_le in E2, E3.
+    unfold iter_attr. rewrite (Hd E1). destruct (Z.ltb_spec (Z.of_nat p - 1) 0); [lia|].
+    replace (Z.to_nat (Z.of_nat p - 1)) with (p - 1)%nat by lia. apply kv_eqb_refl.
+  - (* IndexedAttribute *)
+    apply andb_true_iff. split; [|now apply IH].
+    destruct (d && Nat.leb 1 p && Nat.leb p (length (it_set it))) eqn:E; [|reflexivity].
+    apply andb_true_iff in E as [E E3]. apply andb_true_iff in E as [E1 E2]. apply Nat.leb_le in E2, E3.
+    unfold iter_attr. rewrite (Hd E1). rewrite Z.eqb_refl. cbn [andb].
+    destruct (Z.ltb_spec (Z.of_nat p - 1) 0); [lia|].
+    replace (Z.to_nat (Z.of_nat p - 1)) with (p - 1)%nat by lia. apply kv_eqb_refl.
+  - (* Len *)
+    rewrite N.eqb_refl. cbn [andb]. now apply IH.
+  - (* ToSlice *)
+    rewrite kvs_eqb_refl. cbn [andb].
+    apply (IH {| it_set := it_set it; it_idx := _ |} p false). discriminate.
+Qed.
+
+(** Any call sequence on a fresh iterator of any set satisfies the iterator clause. *)
+Lemma iter_fresh_ok s ops : iter_ok s 0 true ops (iter_run (iter_new s) ops) = true.
+Proof. apply (iter_run_ok ops (iter_new s) 0%nat true). reflexivity. Qed.
+
+(** ToSlice returns the whole set whatever was called before, and Len never changes. *)
+Lemma iter_run_slices ops : forall it,
+  (forall l, In (OSlice l) (iter_run it ops) -> l = it_set it) /\
+  (forall n, In (OLen n) (iter_run it ops) -> n = N.of_nat (length (it_set it))).
+Proof.
+  induction ops as [|op ops IH]; intro it; [split; intros ? []|].
+  cbn [iter_run]. destruct (iter_step it op) as [it' o] eqn:E.
+  assert (S : it_set it' = it_set it) by (destruct op; cbn in E; inversion E; reflexivity).
+  destruct (IH it') as [I1 I2]. rewrite S in I1, I2. split.
+  - intros l [H|H]; [|auto]. destruct op; cbn in E; inversion E as [[E1 E2]]; rewrite <- E2 in H; inversion H; reflexivity.
+  - intros n [H|H]; [|auto]. destruct op; cbn in E; inversion E as [[E1 E2]]; rewrite <- E2 in H; inversion H; reflexivity.
+Qed.
+
+(** The plain walk: Next, Attribute, Next, Attribute ... yields every element once, in order, then false. *)
+Fixpoint walk_obs (l : list kv) : list iobs :=
+  match l with [] => [ONext false] | x :: r => ONext true :: OAttr x :: walk_obs r end.
+Fixpoint walk_ops (n : nat) : list iop :=
+  match n with O => [INext] | S m => INext :: IAttr :: walk_ops m end.
+
+Lemma iter_walk_from pre rest : forall it,
+  it_set it = pre ++ rest -> it_idx it = (Z.of_nat (length pre) - 1)%Z ->
+  iter_run it (walk_ops (length rest)) = walk_obs rest.
+Proof.
+  revert pre. induction rest as [|x rest IH]; intros pre it Hs Hi; cbn [length walk_ops walk_obs iter_run iter_step].
+  - f_equal. f_equal. rewrite Hs, Hi, app_nil_r. apply Z.ltb_ge. lia.
+  - assert (L : ((it_idx it + 1 <? Z.of_nat (length (it_set it)))%Z) = true).
+    { apply Z.ltb_lt. rewrite Hs, Hi, app_length. cbn [length]. lia. }
+    rewrite L. f_equal. f_equal.
+    + f_equal. unfold iter_attr. cbn [it_idx it_set]. rewrite Hi.
+      destruct (Z.ltb_spec (Z.of_nat (length pre) - 1 + 1) 0); [lia|].
+      replace (Z.to_nat (Z.of_nat (length pre) - 1 + 1)) with (length pre) by lia.
+      rewrite Hs, app_nth2 by lia. now rewrite Nat.sub_diag.
+    + apply (IH (pre ++ [x])).
+      * cbn [it_set]. now rewrite Hs, <- app_assoc.
+      * cbn [it_idx]. rewrite Hi, app_length. cbn [length]. lia.
+Qed.
+
+Lemma iter_walk s : iter_run (iter_new s) (walk_ops (length s)) = walk_obs s.
+Proof. apply (iter_walk_from [] s); reflexivity. Qed.
+
+(** MergeIterator: any sequence of Next / Attribute calls walks the merged sequence. *)
+Definition mi_op (op : iop) : bool := match op with INext | IAttr => true | _ => false end.
+
+Lemma skipn_cons_nth {A} (c : list A) : forall p x r d, skipn p c = x :: r ->
+  nth p c d = x /\ skipn (S p) c = r /\ (p < length c)%nat.
+Proof.
+  induction c as [|y c IH]; intros p x r d H; [destruct p; discriminate|].
+  destruct p as [|p]; cbn in H.
+  - inversion H; subst. repeat split; cbn; lia.
+  - destruct (IH p x r d H) as (H1 & H2 & H3). repeat split; auto. cbn. lia.
+Qed.
+
+Lemma skipn_nil_len {A} (c : list A) : forall p, skipn p c = [] -> (length c <= p)%nat.
+Proof.
+  induction c as [|y c IH]; intros p H; [cbn; lia|]. destruct p as [|p]; [discriminate|].
+  cbn in *. apply IH in H. lia.
+Qed.
+
+Lemma miter_run_ok c ops : forallb mi_op ops = true -> forall m p,
+  mi_rest m = skipn p c ->
+  ((1 <= p)%nat -> (p <= length c)%nat -> mi_cur m = nth (p - 1) c zero_kv) ->
+  iter_ok c p true ops (miter_run m ops) = true.
+Proof.
+  induction ops as [|op ops IH]; intros Ho m p Hr Hc; [reflexivity|].
+  cbn [forallb] in Ho. apply andb_true_iff in Ho as [Hop Ho].
+  destruct op; try discriminate; cbn [miter_run miter_step].
+  - destruct (mi_rest m) as [|x r] eqn:E.
+    + cbn [iter_ok]. symmetry in Hr. apply skipn_nil_len in Hr.
+      destruct (Nat.leb_spec (S p) (length c)); [lia|]. cbn [Bool.eqb andb].
+      apply IH; auto.
+      * rewrite E. symmetry. apply skipn_all2. lia.
+      * intros. lia.
+    + cbn [iter_ok]. symmetry in Hr. destruct (skipn_cons_nth c p x r zero_kv Hr) as (N1 & N2 & N3).
+      destruct (Nat.leb_spec (S p) (length c)); [|lia]. cbn [Bool.eqb andb].
+      apply IH; auto. intros _ _. cbn [mi_cur]. replace (S p - 1)%nat with p by lia. now rewrite N1.
+  - cbn [iter_ok andb].
+    apply andb_true_iff. split; [|now apply IH].
+    destruct (Nat.leb 1 p && Nat.leb p (length c)) eqn:E; cbn [andb]; [|reflexivity].
+    apply andb_true_iff in E as [E1 E2]. apply Nat.leb_le in E1, E2. rewrite (Hc E1 E2). apply kv_eqb_refl.
+Qed.
+
+Lemma miter_fresh_ok a b ops : forallb mi_op ops = true ->
+  iter_ok (merge_iter a b) 0 true ops (miter_run (miter_new a b) ops) = true.
+Proof. intro H. apply miter_run_ok; auto. intros. lia. Qed.
